@@ -8,7 +8,8 @@ REPO = os.environ.get('VERIF_REPO', '/repo')
 BUILD = os.path.join(VERIF, 'build')
 SPEC = os.path.join(VERIF, 'spec')
 HARN = os.path.join(VERIF, 'harness')
-EVID = os.path.join(VERIF, 'evidence')
+# evidence describes /repo itself: a run against another tree (VERIF_REPO, used to try seeded changes) keeps its files away from it
+EVID = os.path.join(VERIF, 'evidence') if REPO == '/repo' else os.path.join(VERIF, 'build', 'evidence-other-tree')
 REPLAY = os.path.join(VERIF, 'replay')
 TLAJAR = '/opt/veriftools/tla/tla2tools.jar'
 CMJAR = '/opt/veriftools/tla/CommunityModules-deps.jar'
